@@ -176,7 +176,8 @@ def r2(ctx):
     rule = "C01.R2"
     ctx.rule(rule, "T2 UPER codec-skeleton symmetry: for every kind, UperWriter::write_K and UperReader::read_K (closures included, "
                    "same-type helpers inlined to depth 1) perform the same set of codec / framing calls with the same "
-                   "constraint-argument descriptors")
+                   "constraint-argument descriptors, and nest the framing combinators with_buffer / scope_stashed / scope_pushed in "
+                   "the same order")
     pairs = uper_pairs(ctx, rule)
     ctx.floor(rule, len(pairs), "C01.R2.pairs")
     for name, wb, rb in pairs:
@@ -598,7 +599,8 @@ def r5(ctx):
     from ..core import VERIF
     rule = "C01.R5"
     ctx.rule(rule, "T4 length-determinant discipline in rw/uper.rs: the fragment size returned by write_length_determinant is used, and "
-                   "every size read with read_length_determinant in a form that can fragment is compared with the 16K boundary")
+                   "every size read with read_length_determinant in a form that can fragment is compared with the 16K boundary; a "
+                   "continuation loop of the writer is left only by comparing the fragment just announced with 16K")
     with open(os.path.join(VERIF, "tables", "discharged_sites.json")) as fh:
         disc = json.load(fh).get("LD", {})
     nw, nr = ld_sites(ctx, rule, ("rw/uper.rs",), disc)
